@@ -121,7 +121,7 @@ Proof.
     destruct (nth_error nodes' i) as [v'|] eqn:Ev; [|apply nth_error_None in Ev; lia].
     exists (JInt (Z.of_nat i) :: js), (v' :: l'). repeat split.
     + cbn. now rewrite Hi, H1.
-    + cbn. now rewrite (att_index_nat nodes' i v' Ev), H2.
+    + cbn [mapM]. now rewrite (att_index_nat nodes' i v' Ev), H2.
     + constructor; [|assumption]. eapply nth_error_combine; eassumption.
 Qed.
 
